@@ -390,7 +390,7 @@ func (r *Resolver) AutoTA() {
 		}
 
 		if ta.DNSKey.Flags&DNSKEYFlagRevoke != 0 {
-			oldTag := tag - DNSKEYFlagRevoke
+			oldTag := unrevokedKeyTag(ta.DNSKey)
 			oldTA := kskCurrent[oldTag]
 			// RFC 5011 §4 state table: both Valid + RevBit and
 			// Missing + RevBit transition to revoked. Since Missing
@@ -615,6 +615,19 @@ func autoTARefreshFailureCounter(err error, fallback *metric.Counter) *metric.Co
 	}
 }
 
+// unrevokedKeyTag returns the key tag k had before its REVOKE bit was
+// set. Subtracting the flag value from the revoked tag is only right
+// while the tag's 16-bit one's-complement sum does not carry: for a key
+// whose tag is 65408 or above, setting the bit wraps the sum, the
+// revoked tag is not tag+128, and the subtraction points at a key that
+// was never tracked — the revocation would be ignored and the anchor
+// kept. Recomputing the tag from the key itself is always right.
+func unrevokedKeyTag(k *dns.DNSKEY) uint16 {
+	unrevoked := *k
+	unrevoked.Flags &^= DNSKEYFlagRevoke
+	return dnssec.KeyTag(&unrevoked)
+}
+
 // sameKeyExceptRevoke reports whether revokedKey is the same DNSKEY
 // as currentKey with only the REVOKE bit toggled. Key tags are 16-bit
 // checksums and can collide, so identifying a revocation by tag alone
@@ -685,7 +698,7 @@ func stageRevocationSelfSignatures(
 			existing.DNSKey.Flags == ta.DNSKey.Flags {
 			continue
 		}
-		oldTA := kskCurrent[tag-DNSKEYFlagRevoke]
+		oldTA := kskCurrent[unrevokedKeyTag(ta.DNSKey)]
 		if oldTA == nil || (oldTA.State != StateValid && oldTA.State != StateMissing) {
 			continue
 		}
@@ -752,7 +765,7 @@ func verifyFetchedKeysWithWork(
 		if dnskey.Flags&DNSKEYFlagRevoke == 0 {
 			continue
 		}
-		for _, candidate := range currentKeys[dnssec.KeyTag(dnskey)-DNSKEYFlagRevoke] {
+		for _, candidate := range currentKeys[unrevokedKeyTag(dnskey)] {
 			if sameKeyExceptRevoke(candidate, dnskey) {
 				tag := dnssec.KeyTag(dnskey)
 				revokedBootstrap[tag] = append(revokedBootstrap[tag], dnskey)
